@@ -37,6 +37,10 @@ pub struct ProcPlan {
     /// extra environment variables of the child process
     #[serde(default)]
     pub env: Vec<(String, String)>,
+    /// connect the child's stdout to /dev/full (a sink fault: outside every
+    /// property's fault set, used only as a probe — see c03::run_proc)
+    #[serde(default)]
+    pub stdout_full: bool,
 }
 
 #[derive(Clone, Debug, PartialEq, Eq, Serialize, Deserialize)]
@@ -172,6 +176,11 @@ pub fn run_proc(plan: &ProcPlan, verif: &str) -> ProcRecord {
         .stdin(Stdio::null())
         .stdout(Stdio::piped())
         .stderr(Stdio::piped());
+    if plan.stdout_full {
+        if let Ok(f) = std::fs::OpenOptions::new().write(true).open("/dev/full") {
+            cmd.stdout(Stdio::from(f));
+        }
+    }
     if let Some(c) = plan.clock {
         cmd.env("SHIM_CLOCK", c.to_string());
     }
